@@ -52,7 +52,10 @@ HARNESSES = [
          configs=[{"LOGBS": 0, "BPG": 256, "ISIZE": 128, "IS64": 0, "MAXG": 4},
                   # the two isolated defects of the unchanged tree (see harness comments / final report)
                   {"LOGBS": 0, "BPG": 256, "ISIZE": 128, "IS64": 0, "MAXG": 4, "AUTO_META_RSV": None},
-                  {"LOGBS": 0, "BPG": 256, "ISIZE": 128, "IS64": 0, "MAXG": 4, "SS2_ONE_GROUP": None},
+                  # SS2_ONE_GROUP (one-group sparse_super2 geometry accepted although the group cannot hold its metadata)
+                  # is NOT registered: ext2fs_initialize accepts it, but mke2fs then fails in table allocation and
+                  # produces no filesystem, so C07 ("every configuration mke2fs ACCEPTS") is not violated; the query
+                  # demanded more than the property states (see DESIGN.md part A, observations).
                   {"LOGBS": 0, "BPG": 256, "ISIZE": 256, "IS64": 1, "MAXG": 4, "_tier": "thorough"},
                   {"LOGBS": 2, "BPG": 32768, "ISIZE": 256, "IS64": 1, "MAXG": 3, "_unwindset": INIT_UW(3), "_tier": "thorough"}],
          unwind=3, unwindset=INIT_UW(4),
